@@ -76,17 +76,28 @@ CLAIMS["C18"] = dict(text="bounded symbolic model checking: for every pair of pr
                     "Gaussian backend; plus reflexivity, symmetry of the returned value and invariance of equivalence under swapping adjacent commands "
                     "on disjoint modes", design_ref="5/C18",
                     note=NOTE + "; beamsplitter parameters are numeric instances (the mod-pi reduction of a symbolic angle inside program_equivalence makes the queries mixed integer/non-linear)")
+CLAIMS["C04"] = dict(text="bounded symbolic execution with CrossHair (z3-driven path exploration of the real Python code): for every command sequence "
+                    "within the bounds (quick: <=2 commands on 3 modes, with measured-parameter dependencies and GBS circuits on 2 modes; thorough: <=3), "
+                    "list_to_grid places every command on exactly the wires it touches or depends on in program order; DAG_to_list(list_to_DAG(seq)) "
+                    "and group_operations return a permutation (by identity) of the input that keeps the order of every dependent pair, with no marked "
+                    "operation in the leading or trailing part; GBS.compile either raises CircuitError or returns the Gaussian part in a dependency-"
+                    "respecting order followed by one MeasureFock on exactly the measured modes in ascending order. Only 'Confirmed over all paths' "
+                    "counts; each harness has a reachability twin that must be refuted", design_ref="5/C04", engine="crosshair",
+                    technique="CrossHair symbolic execution (z3) of the real program_utils / GBS code over symbolic small-integer command descriptions; verdict 'Confirmed over all paths' within stated bounds",
+                    note="CrossHair realises symbolic integers at hash/dict boundaries (networkx), so its verdict is a solver-driven exhaustive case split rather than a single formula; bounds are small because cost grows about tenfold per command; trusted: CrossHair 0.0.110, z3, the respects()/wires() oracle in xh/c04_reorder.py")
 NA_DEFAULT = "check not built yet in this session (plan: DESIGN.md section 5)"
 NA = {}
 
 man = {
     "version": 1,
-    "setup_cmd": "true",
+    "setup_cmd": "./tools/setup_venv.sh",
     "hooks": {"guard": "SF_VERIF",
               "enable": "no hooks in /repo: stubs are installed from the harness process by replacing module namespaces (NUMBA_DISABLE_JIT=1 in the checking process only)",
               "baseline_off_cmd": "cd /repo && /venv/bin/python -m pytest -ra -q -p no:cacheprovider --timeout=900 --continue-on-collection-errors",
               "source_commits": [], "add_only": True},
     "engines": [
+        {"name": "crosshair", "path": "xh/", "serves_properties": ["C04", "C13", "C19", "C12"],
+         "kind_free_text": "CrossHair 0.0.110 contract checking (symbolic execution of Python with z3) of pure-Python integer/list kernels; props/xhrun.py runs one process per condition and replays counterexamples"},
         {"name": "symx", "path": "symx/", "serves_properties": sorted(CLAIMS),
          "kind_free_text": "symbolic execution of the real Python/numpy code on hash-consed term DAGs (Engine S) with path forking on "
                            "symbolic branch conditions (Engine P); SMT-LIB queries to z3-new / z3 / cvc5 binaries"},
